@@ -133,13 +133,13 @@ def judge(data: bytes, opts, bursts=None, seekable=False, grow=None):
     return viol, nitems, (prev_end < len(data))
 
 
-def judge_socket(data, opts, chunks, bufsize, end):
+def judge_socket(data, opts, chunks, bufsize, end, close_after=None):
     """The same invariant over a socket transport: positions are not observable
     there, so every raw item must be found in the input at or after the end of the
     previous one (non-overlapping, in order) and begin with a preamble."""
     # the socket may be a subclass with read()/write() of its own, the application may
     # write to it between reads - and a write may fail while received data is pending
-    mode = (len(data) + bufsize) % 4
+    mode = (len(data) + bufsize) % 4 if close_after is None else 0
     cls = S.TLSLikeSocket if mode == 3 else S.ScriptedSocket
     sock = cls(data, chunks, end, write_fails={0: None, 1: BrokenPipeError, 2: ConnectionResetError, 3: None}[mode])
     viol, n = [], 0
@@ -157,7 +157,8 @@ def judge_socket(data, opts, chunks, bufsize, end):
                     if raw is None and parsed is None:
                         break
                     items.append((raw, parsed))
-                    if mode == 0 and len(data) % 3 == 0 and len(items) == 2:
+                    if mode == 0 and ((close_after is None and len(data) % 3 == 0 and len(items) == 2)
+                                      or (close_after is not None and len(items) == close_after)):
                         closed_pos = sock._pos
                         sock.close()  # the application closes its own socket and drains what was received
                         closed = True
@@ -207,7 +208,7 @@ def judge_socket(data, opts, chunks, bufsize, end):
 def check(case) -> core.Out:
     if case.get("kind") == "socket":
         data, opts = bytes(case["data"]), dict(case["opts"])
-        viol, n = judge_socket(data, opts, case["chunks"], case["bufsize"], case["end"])
+        viol, n = judge_socket(data, opts, case["chunks"], case["bufsize"], case["end"], case.get("close_after"))
         out = core.Out(viol=viol, classes=["socket-transport"] + (["session>64KiB"] if len(data) > 65536 else []),
                        dig=core.digest((data[:64], len(data), case["chunks"][:8], case["bufsize"], case["end"])))
         out.nontrivial = True
@@ -251,6 +252,24 @@ def run_shard(spec, ctx, acc):
         run_atheris(spec, ctx, acc)
         return
     if spec["what"] == "socket":
+        # the application closes its own socket while whole frames are still in the wrapper's
+        # buffer (enumerated: everything arrives in one or two deliveries)
+        ack_ = S.codec.ubx_frame(b"\x05", b"\x01", b"\x06\x01")
+        txt_ = S.codec.nmea_frame("GNGLL,5327.04319,N,00214.41396,W,223232.00,A,A")
+        rt_ = S.codec.rtcm_frame(bytes.fromhex("3ed00003"))
+        for j, body in enumerate((ack_ * 12 + txt_ + ack_ * 3, (ack_ + txt_ + rt_) * 6, txt_ * 8 + ack_ * 2)):
+            if j % 2 != spec["part"] % 2:
+                continue
+            for chunks_ in ([len(body)], [len(body) // 2, len(body)]):
+                for ca in (1, 2, 3):
+                    for qe in (0, 1):
+                        case = {"kind": "socket", "data": body, "chunks": chunks_, "bufsize": 4096, "end": "close",
+                                "close_after": ca, "opts": {"msgmode": 0, "validate": 1, "parsebitfield": 1, "quitonerror": qe,
+                                                            "protfilter": 7, "parsing": True}}
+                        o = core.checked(check, case)
+                        o.classes = list(o.classes) + ["socket-closed-by-application"]
+                        core.handle(acc, o, case, known)
+
         @st.composite
         def sk(draw):
             long_ = draw(st.integers(0, 1)) == 0
